@@ -47,8 +47,10 @@ func (s *SharedWords) ptr(i int) *uint64 {
 	return (*uint64)(unsafe.Pointer(&s.mem[i*8]))
 }
 
-func (s *SharedWords) Add(i int, d uint64) uint64   { return atomic.AddUint64(s.ptr(i), d) }
-func (s *SharedWords) Load(i int) uint64            { return atomic.LoadUint64(s.ptr(i)) }
-func (s *SharedWords) Store(i int, v uint64)        { atomic.StoreUint64(s.ptr(i), v) }
-func (s *SharedWords) CAS(i int, o, n uint64) bool  { return atomic.CompareAndSwapUint64(s.ptr(i), o, n) }
-func (s *SharedWords) Close() error                 { return unix.Munmap(s.mem) }
+func (s *SharedWords) Add(i int, d uint64) uint64 { return atomic.AddUint64(s.ptr(i), d) }
+func (s *SharedWords) Load(i int) uint64          { return atomic.LoadUint64(s.ptr(i)) }
+func (s *SharedWords) Store(i int, v uint64)      { atomic.StoreUint64(s.ptr(i), v) }
+func (s *SharedWords) CAS(i int, o, n uint64) bool {
+	return atomic.CompareAndSwapUint64(s.ptr(i), o, n)
+}
+func (s *SharedWords) Close() error { return unix.Munmap(s.mem) }
